@@ -280,6 +280,7 @@ func checkC07(c *Ctx, r *Report) {
 	// the C09 obligations are evaluated here as well, so a change to the escaper fails this property too.
 	sub := newReport("C09", r.Tier)
 	checkC09(c, sub)
+	sub.applyDecisions()
 	nOK := 0
 	for _, ob := range sub.Obls {
 		if ob.Status == Discharged {
@@ -1169,7 +1170,10 @@ func (c *Ctx) checkDispatch(r *Report, ro *Roles) {
 		eachInstr(f, func(in ssa.Instruction) {
 			if ci, ok := in.(ssa.CallInstruction); ok && ci.Common().IsInvoke() {
 				m := ci.Common().Method
-				pf := typeFamily(m.Type().(*types.Signature).Params().At(0).Type())
+				pf := ""
+				if ps := m.Type().(*types.Signature).Params(); ps.Len() > 0 {
+					pf = typeFamily(ps.At(0).Type())
+				}
 				got = append(got, m.Name()+":"+pf)
 			}
 		})
@@ -1540,6 +1544,7 @@ func checkC08(c *Ctx, r *Report) {
 	// "no field key or value can introduce a line break or a raw control character" rests on the shared escaper
 	sub := newReport("C09", r.Tier)
 	checkC09(c, sub)
+	sub.applyDecisions()
 	nOK := 0
 	for _, ob := range sub.Obls {
 		if ob.Status == Discharged {
